@@ -91,7 +91,7 @@ def gen(seed, tier):
         else:
             b = copy.deepcopy(a)
         op = rng.choice(["eq", "eq", "eq", "teq", "teq", "isempty", "count", "tcount", "nonempty"])
-        case = {"prop": PROP, "op": op, "d": d, "da": da, "a": a, "kind": kind}
+        case = {"prop": PROP, "op": op, "d": d, "da": da, "a": a, "kind": kind, "fdflt": rng.random() < 0.15}
         if kind == "owned" or op in ("teq", "tcount"):
             r3 = rng.random()
             if r3 < 0.2:
@@ -136,6 +136,8 @@ def run(case):
     ft = H.ft()
     d, op = case["d"], case["op"]
     da = case["da"]
+    if case.get("fdflt"):
+        da = float(da)
     fa = H.build_fiber(case["a"], d + 1, case.get("fibdfltA", da) if case["kind"] == "owned" else da)
     objs, tensors = [fa], []
     ta = tb = None
